@@ -8,4 +8,7 @@ cargo kani --version 2>&1 | cat | grep -q "0.68.0" || { echo "kani 0.68.0 not fo
 cbmc --version 2>&1 | cat | grep -q "^6.11" || { echo "cbmc 6.11 not found"; exit 1; }
 python3 -B -c "import vlib.main, vlib.kanirun; n=len(vlib.kanirun.scan_catalogue()); print('catalogue: %d Kani obligations' % n); assert n > 0"
 mkdir -p evidence replay
+# native validation of the ASSUMED intrinsic contracts (models in kani/support) against the real
+# instructions of this CPU (exhaustive per lane / control byte + 2 x 2,000,000 seeded random pairs)
+( cd kani/validate && cargo run --release --offline --quiet ) || { echo "intrinsic model validation failed"; exit 1; }
 echo "setup ok"
